@@ -15,3 +15,6 @@ open Rtsp.Sdp.C05
 #print axioms media_roundtrip
 #print axioms format_lookup_roundtrip
 #print axioms mikey_hypothesis
+#print axioms accepted_invariants
+#print axioms good_of_valid_format
+#print axioms reparse_idempotent_valid_formats
